@@ -547,7 +547,11 @@ class Interp(object):
                         for j in range(n):
                             cj = tm.iop('eq', 'u%d' % (8 * self.F.ptr_size), idx, const(j, self.F.ptr_size))
                             cc = cj if c is None else tm.b_and(c, cj)
+                            if cc is FALSE:
+                                continue
                             new.append((cc, o, off + j * stride))
+                    if not new:
+                        raise Abort('index provably out of range')
                     alts = new
                 cur_ty = self.F.types[cur_ty].get('elem')
             elif k == 'ci':
@@ -684,7 +688,9 @@ class Interp(object):
         sz = self.F.types[dest_ty]['sz']
         if tm.is_const(d):
             return const(tm.cbits(d) & ((1 << (8 * sz)) - 1), sz)
-        return mk('discr', d, sz) if d.op != 'discr' else d
+        if d.op == 'ite':
+            return ite(d.args[0], self._discr_to(d.args[1], dest_ty), self._discr_to(d.args[2], dest_ty))
+        return d
 
     def read_discr(self, obj, off, tyid):
         d = obj.discr.get((off, tyid))
@@ -721,8 +727,19 @@ class Interp(object):
                 if d is None:
                     raise Abort('enum cast without discriminant')
                 tn = self.sname(tid)
-                if tm.is_const(d):
-                    return const(tm.cbits(d) & ((1 << (8 * self.F.types[tid]['sz'])) - 1), self.F.types[tid]['sz'])
+                tsz = self.F.types[tid]['sz']
+
+                def conv(x, depth=0):
+                    if tm.is_const(x):
+                        return const(tm.cbits(x) & ((1 << (8 * tsz)) - 1), tsz)
+                    if x.op == 'ite' and depth < 64:
+                        a, b = conv(x.args[1], depth + 1), conv(x.args[2], depth + 1)
+                        if a is not None and b is not None:
+                            return ite(x.args[0], a, b)
+                    return None
+                r = conv(d)
+                if r is not None:
+                    return r
                 return mk('cast', 'IntToInt', 'discr', tn, d)
             if not isinstance(v, T):
                 raise Abort('numeric cast of aggregate')
@@ -1036,8 +1053,8 @@ class Interp(object):
                 for (c, tb) in conds:
                     if c is FALSE:
                         continue
-                    full = tm.b_and(c, *neg)
-                    arms.append((full, tb))
+                    # value arms of one switch are mutually exclusive (distinct constants)
+                    arms.append((c, tb))
                     neg.append(tm.b_not(c))
                     if c is TRUE:
                         break
